@@ -20,7 +20,7 @@ RULE = ("case = (scenario, crash point k of the recorded write history, before/t
         "state of every scenario is materialised and resumed; non-trivial = the crash directory differs "
         "from every committed (iteration-boundary) directory state; distinct = distinct directory digests")
 ASSUMPTIONS = [
-    "process-kill model: completed operations persist, later ones are lost, a write may be torn; power-loss "
+    "process-kill model: completed operations persist, later ones are lost, a write may be torn, unflushed bytes of an open handle may be lost; power-loss "
     "reordering of unsynced data is not modelled",
     "every write of the driver goes through Python's open() (asserted: model FS == real directory after the reference run)",
     "resume runs in a fresh optimize_kl call of the same interpreter family (JAX caches are result-neutral)",
@@ -152,7 +152,7 @@ def cases(tier, seed):
                 continue    # identical directory content: same resume behaviour
             seen.add(dig)
             out.append(dict(scenario=name, k=lab["k"], point=lab["point"], op=lab["op"],
-                            path=lab["path"], torn=lab.get("bytes"), fsdigest=dig,
+                            path=lab["path"], torn=lab.get("bytes"), lost=bool(lab.get("lost")), fsdigest=dig,
                             committed=dig in committed, n_events=len(events),
                             double=(tier == "thorough" and name in ("mgvi3", "switch3"))))
     return out
@@ -173,6 +173,8 @@ def _window(case, events):
     ev = events[k]
     if case["point"] == "torn":
         return "torn-write:%s" % ev["path"]
+    if case["point"] == "unflushed":
+        return "unflushed-buffer-lost:before-%s(%s)" % (ev["op"], ev["path"])
     if openfile is not None:
         return "inside-open(%s,%s)" % openfile
     return "between-ops:before-%s(%s)" % (ev["op"], ev["path"])
@@ -187,7 +189,7 @@ def run(case):
         if case["scenario"] not in _RELOG:
             _RELOG[case["scenario"]] = _record(case["scenario"])
         events, ref, _ = _RELOG[case["scenario"]]
-    fs = fsfault.state_at(events, case["k"], torn_bytes=case["torn"])
+    fs = fsfault.state_at(events, case["k"], torn_bytes=case["torn"], lost=bool(case.get("lost")))
     if fsfault.fs_digest(fs) != case["fsdigest"]:
         raise RuntimeError("crash state not reproducible")
     window = _window(case, events)
